@@ -334,7 +334,10 @@ func runSolver(name, file string, timeout int) SolverResult {
 
 // raceSolvers runs several strategies on the same query concurrently and
 // returns as soon as one gives a definite answer (the others are killed).
-func raceSolvers(names []string, file string, timeout int) []SolverResult {
+// raceSolvers runs the named solvers on file concurrently and returns at the first definite answer.
+// A solver named "cvc5" reads cvc5File and is started two seconds late, so that the many queries z3
+// answers at once do not spawn it.
+func raceSolvers(names []string, file string, timeout int, cvc5File ...string) []SolverResult {
 	type res struct {
 		i int
 		r SolverResult
@@ -344,6 +347,18 @@ func raceSolvers(names []string, file string, timeout int) []SolverResult {
 	ch := make(chan res, len(names))
 	for i, n := range names {
 		go func(i int, n string) {
+			file := file
+			if n == "cvc5" {
+				if len(cvc5File) > 0 {
+					file = cvc5File[0]
+				}
+				select {
+				case <-ctx.Done():
+					ch <- res{i, SolverResult{Solver: n, Result: "cancelled"}}
+					return
+				case <-time.After(2 * time.Second):
+				}
+			}
 			args := solverCmds[n](file, timeout)
 			cctx, ccancel := context.WithTimeout(ctx, time.Duration(timeout+5)*time.Second)
 			defer ccancel()
@@ -449,8 +464,18 @@ func Discharge(obls []*Obligation, dir string, timeout int, thorough bool, jobs 
 					// spurious sat on a str.in_re query); a sat answer must replay on the real code anyway
 					strategies = []string{"z3-new", "z3"}
 				}
-				raced := raceSolvers(strategies, f, timeout)
+				cf := base + ".cvc5.smt2"
+				if o.Raw == "" {
+					// heap-track queries: cvc5 joins the race (late); some accumulation invariants are
+					// decided by cvc5 at once while every z3 configuration runs into the timeout
+					os.WriteFile(cf, []byte(scripts[i][1]), 0o644)
+					strategies = append(strategies, "cvc5")
+				}
+				raced := raceSolvers(strategies, f, timeout, cf)
 				for _, sr := range raced {
+					if sr.Result == "cancelled" && sr.Secs == 0 {
+						continue
+					}
 					r.Attempts = append(r.Attempts, sr)
 					if sr.Result == "unsat" {
 						r.By, r.Status = sr.Solver, "discharged"
@@ -462,7 +487,7 @@ func Discharge(obls []*Obligation, dir string, timeout int, thorough bool, jobs 
 						isDef = true
 					}
 				}
-				if !isDef {
+				if !isDef && o.Raw != "" {
 					try("cvc5")
 				}
 			}
